@@ -236,10 +236,15 @@ def parse_raw_http(data: bytes) -> Union[HttpRequest, HttpResponse]:
 
     # sanitize uri bytes for `urlparse()` to avoid possible decode errors
     uri = uri.decode("ascii", errors="ignore")
-    result = urlsplit(uri)
-    uri = result.path.encode()
+    if uri.startswith("/"):
+        # origin-form request target: it is a path, not a URL ("//a/b" has an empty first segment, no network location)
+        uri, _, query = uri.partition("?")
+    else:
+        result = urlsplit(uri)
+        uri, query = result.path, result.query
+    uri = uri.encode()
     # percent-encoded bytes >= 0x80 cannot be round-tripped by parse_qsl on bytes input, decode them as latin-1
-    params = {k.encode("latin-1"): v.encode("latin-1") for k, v in parse_qsl(result.query, encoding="latin-1")}
+    params = {k.encode("latin-1"): v.encode("latin-1") for k, v in parse_qsl(query, encoding="latin-1")}
     return HttpRequest(method=method, body=body, headers=headers, uri=uri, params=params)
 
 
